@@ -235,7 +235,9 @@ def real_args(node) -> dict:
         kinds = [int(k.value) for k in node.type.arg_kinds]
         if kinds != [a[1] for a in args]:
             names = ["<callable kinds differ>"] + names
-    return {"args": args, "names": names}
+    # FuncItem.arg_names is computed from Argument.pos_only when the FuncDef / LambdaExpr is *constructed*
+    item_names = list(getattr(node, "arg_names", None) or []) if hasattr(node, "arg_names") else None
+    return {"args": args, "names": names, "item_names": item_names}
 
 
 def is_special(fname: str) -> bool:
